@@ -3,6 +3,7 @@
 -/
 import Yld.Proofs.Restore2
 import Yld.Proofs.NeqSpec
+import Yld.Proofs.LogicMeta
 namespace Yld.C09
 
 /-- once(G) fails, without raising, when G has no answer. -/
@@ -78,5 +79,55 @@ theorem neq_failure_exhibits_a_unifier (cfg : Cfg) (w : World) (h : StdEq cfg w)
 /-- The hypothesis is that of a fresh engine. -/
 example : StdEq { blacklist := ({} : Engine).blacklist, defs := ({} : Engine).defs, mode := .compiled } ({} : Engine).w :=
   ⟨by rfl, by rfl, by rfl⟩
+
+/-! ### findall/3 and once/1 against the logical reading
+
+For a goal of a Horn program with any closed fact store; `HoldsF db preds` is what follows from program
+and store (Yld/Proofs/LogicFacts.lean). Through `call_appends_arguments` the goal term stands for
+`query cfg f name args`; `findallCollect` is the list comprehension of `findall`. -/
+
+/-- Every instance of every element findall collects is an instance of the template for which the goal
+    follows from program and store. -/
+theorem findall_elements_are_consequences (cfg : Cfg) (preds : List Pred) (h : HornCfg cfg preds)
+    (f f' : Nat) (name : String) (args : List Term) (tmpl : Term) (hname : userName name = true)
+    (w : World) (hcl : DbClosed w.db) (hsc : w.Scoped) (hsolv : Solvable w.b) (hcyc : w.cyc = false)
+    (hargs : ∀ t ∈ args, ∀ x ∈ t.vars, x < w.next) (htmpl : ∀ x ∈ tmpl.vars, x < w.next)
+    (hc : (query cfg f name args (findallCollect f' tmpl) { w with acc := [] :: w.acc }).1.cyc = false) :
+    ∀ e ∈ collected (query cfg f name args (findallCollect f' tmpl) { w with acc := [] :: w.acc }),
+      ∀ ρ : Nat → Term, ∃ θ, Solves θ w.b ∧ e.subst ρ = tmpl.subst θ ∧
+        HoldsF w.db preds name (args.map (Term.subst θ)) :=
+  findall_collects_only_consequences cfg preds h f f' name args tmpl hname w hcl hsc hsolv hcyc hargs htmpl hc
+
+/-- Without cut, when the goal's enumeration ends normally, every instance of the template whose goal
+    instance follows is an instance of a collected element. -/
+theorem findall_misses_no_consequence (cfg : Cfg) (preds : List Pred) (h : HornCfg cfg preds)
+    (hnocut : ∀ p ∈ preds, ∀ c ∈ p.clauses, c.body.cutFree = true)
+    (f f' : Nat) (name : String) (args : List Term) (tmpl : Term) (hname : userName name = true)
+    (w : World) (hcl : DbClosed w.db) (hsc : w.Scoped)
+    (hargs : ∀ t ∈ args, ∀ x ∈ t.vars, x < w.next) (htmpl : ∀ x ∈ tmpl.vars, x < w.next)
+    (hend : (query cfg f name args (findallCollect f' tmpl) { w with acc := [] :: w.acc }).2 = none)
+    (θ : Nat → Term) (hθ : Solves θ w.b) (hh : HoldsF w.db preds name (args.map (Term.subst θ))) :
+    ∃ e ∈ collected (query cfg f name args (findallCollect f' tmpl) { w with acc := [] :: w.acc }),
+      ∃ ρ : Nat → Term, e.subst ρ = tmpl.subst θ :=
+  findall_collects_every_consequence cfg preds h hnocut f f' name args tmpl hname w hcl hsc hargs htmpl hend θ hθ hh
+
+/-- once(G) runs its continuation only where `G` holds … -/
+theorem once_continues_only_where_the_goal_holds (cfg : Cfg) (preds : List Pred) (h : HornCfg cfg preds)
+    (f : Nat) (name : String) (args : List Term) (hname : userName name = true)
+    (w : World) (hcl : DbClosed w.db) (hsc : w.Scoped) (hargs : ∀ t ∈ args, ∀ x ∈ t.vars, x < w.next)
+    (k1 k2 : K) (hq1 : Quiet k1) (hq2 : Quiet k2)
+    (hk : ∀ w', GoalHoldsF w.db preds name args w' → k1 w' = k2 w') :
+    onceGen (query cfg f name args) k1 w = onceGen (query cfg f name args) k2 w :=
+  once_sees_only_consequences cfg preds h f name args hname w hcl hsc hargs k1 k2 hq1 hq2 hk
+
+/-- … and (no cut) does not simply fail when some instance of `G` follows from program and store. -/
+theorem once_does_not_fail_when_provable (cfg : Cfg) (preds : List Pred) (h : HornCfg cfg preds)
+    (hnocut : ∀ p ∈ preds, ∀ c ∈ p.clauses, c.body.cutFree = true)
+    (f : Nat) (name : String) (args : List Term) (hname : userName name = true)
+    (w : World) (hcl : DbClosed w.db) (hsc : w.Scoped) (hargs : ∀ t ∈ args, ∀ x ∈ t.vars, x < w.next)
+    (θ : Nat → Term) (hθ : Solves θ w.b) (hh : HoldsF w.db preds name (args.map (Term.subst θ)))
+    (s : Sig) :
+    (onceGen (query cfg f name args) (fun w' => (w', some s)) w).2 ≠ none :=
+  once_succeeds_when_provable cfg preds h hnocut f name args hname w hcl hsc hargs θ hθ hh s
 
 end Yld.C09
